@@ -175,9 +175,9 @@ PROPS = {
                        "covariance blocks precede every solver reset. Numerical equivalence with the whitened problem is not decided.",
     },
     "C14": {
-        "rules": [prog.rule_progress, sib.rule_removed_pairing, sib.rule_obs_partition, mpt.rule_mpt_c14, tab.rule_rm_points, tab.rule_cluster_casts,
+        "rules": [prog.rule_progress, sib.rule_revision_pairs, sib.rule_removed_pairing, sib.rule_obs_partition, mpt.rule_mpt_c14, tab.rule_rm_points, tab.rule_cluster_casts,
                   lazy.rule_lazy_cascade, sib.rule_revision_lookup_siblings, step_rule, scratch_rule],
-        "explanation": "R-PROGRESS: in every propagation loop (repeat while the last pass made progress) each point-setter call is followed on every path by raising the progress flag, so the outcome does not depend on the order of the records. R-PAIR P1: every set_unused_xy/z in LocalNetwork is post-dominated by removed(id, code) with a reason code of the "
+        "explanation": "R-SIB revision pairs: in every LocalRevision method a coordinate test (test_xy/test_z) on a point comes with the activity test (active_xy/active_z) on the same point (one frozen upstream exception: z_angle). R-PROGRESS: in every propagation loop (repeat while the last pass made progress) each point-setter call is followed on every path by raising the progress flag, so the outcome does not depend on the order of the records. R-PAIR P1: every set_unused_xy/z in LocalNetwork is post-dominated by removed(id, code) with a reason code of the "
                        "same axis class; partition: revision_observations puts every observation on exactly one of the used / removed "
                        "lists, cleared first, and counts the used list; R-MPT: remove_huge_abs_terms re-triggers the revision after "
                        "deactivating observations; removed(id, code) restarts the whole pipeline (update cascade); reason tables and cluster casts agree (R-TAB/R-VIS); every point an observation refers to is looked up, checked for existence before use and put through the same set of status tests as the other points of that observation in LocalRevision (R-SIB). "
